@@ -112,5 +112,6 @@ pub fn behaviour() -> Behaviour {
         thorough: 20000,
         batch: 25,
         assumptions: &["what the variant prefix looks like is not fixed by the statement and not by the oracle"],
+        miri_units: 0,
     }
 }
